@@ -131,6 +131,18 @@ inductive KeyName
   | aid
   deriving DecidableEq, Repr, Inhabited
 
+/-- the literal key of keystore/db.go for the fixed key names (computed keys: account row = uint32 LE of the
+    account number, public-key entries = branch ‖ index, account-id entries = the id itself) -/
+def KeyName.dbName : KeyName → Option String
+  | .kver => some "kver" | .remark => some "remark" | .mpriv => some "mpriv" | .mpub => some "mpub"
+  | .cpriv => some "cpriv" | .cpub => some "cpub" | .cent => some "cent" | .ent => some "ent"
+  | .coinType => some "coinType" | .account => some "account"
+  | .exb => some "exbPubKey" | .inb => some "inbPubKey" | .exNum => some "exChildNum" | .inNum => some "inChildNum"
+  | .acct _ => none | .pubk _ _ => none | .aid => none
+
+def fixedKeys : List KeyName :=
+  [.kver, .remark, .mpriv, .mpub, .cpriv, .cpub, .cent, .ent, .coinType, .account, .exb, .inb, .exNum, .inNum]
+
 /-- (wallet bucket, key name) -/
 abbrev Key := String × KeyName
 
